@@ -166,3 +166,31 @@ Proof.
   - simpl. assert (Hne : y <> x) by (intros ->; apply Hy; eapply nth_error_In; eassumption).
     apply Nat.eqb_neq in Hne. rewrite Hne. simpl. f_equal. apply IH; assumption.
 Qed.
+
+(* ---------------------------------------------------------------- lists *)
+
+Lemma nth_firstn_lt : forall (A : Type) (l : list A) k i, i < k -> nth_error (firstn k l) i = nth_error l i.
+Proof.
+  induction l as [|y l IH]; intros k i H; [destruct k; reflexivity|].
+  destruct k; [lia|]. destruct i; [reflexivity|]. simpl. apply IH. lia.
+Qed.
+
+Lemma F2_nth_r : forall (A B : Type) (Rel : A -> B -> Prop) l1 l2, Forall2 Rel l1 l2 ->
+  forall k y, nth_error l2 k = Some y -> exists x, nth_error l1 k = Some x /\ Rel x y.
+Proof.
+  intros A B Rel l1 l2 H. induction H as [|x y l1 l2 Hxy _ IH]; intros k y0 Hk; [destruct k; discriminate|].
+  destruct k; simpl in *; [inversion Hk; subst; eauto|apply IH; assumption].
+Qed.
+
+Lemma F2_nth_l : forall (A B : Type) (Rel : A -> B -> Prop) l1 l2, Forall2 Rel l1 l2 ->
+  forall k x, nth_error l1 k = Some x -> exists y, nth_error l2 k = Some y /\ Rel x y.
+Proof.
+  intros A B Rel l1 l2 H. induction H as [|x y l1 l2 Hxy _ IH]; intros k x0 Hk; [destruct k; discriminate|].
+  destruct k; simpl in *; [inversion Hk; subst; eauto|apply IH; assumption].
+Qed.
+
+Lemma firstn_app_exact : forall (A : Type) (l r : list A), firstn (length l) (l ++ r) = l.
+Proof. intros. rewrite firstn_app, Nat.sub_diag, firstn_all. simpl. apply app_nil_r. Qed.
+
+Lemma nth_error_app_exact : forall (A : Type) (l r : list A) x, nth_error (l ++ x :: r) (length l) = Some x.
+Proof. intros. rewrite nth_error_app2 by lia. rewrite Nat.sub_diag. reflexivity. Qed.
